@@ -10,13 +10,12 @@ def main(tier):
     c.build('asan', ['c11'])
     c.run_family('asan', 'c11', 'foreign-eq', args=args, chunk=1, per_case_timeout=30)
     c.run_family('asan', 'c11', 'clone-api', args=args, chunk=6 if quick else 16, per_case_timeout=30)
-    if quick:
-        # the parser costs 1.6 ms per document under ASan and every single mutation needs a fresh parse: the quick tier runs the
-        # parsed origin on the plain build (value oracle only); the thorough tier runs it under ASan as well
-        c.build('plain', ['c11'])
-        c.run_family('plain', 'c11', 'clone-parsed', args=args, chunk=6, per_case_timeout=30)
-    else:
-        c.run_family('asan', 'c11', 'clone-parsed', args=args, chunk=16, per_case_timeout=30)
+    # the parser costs 1.6 ms per document under ASan and every single mutation needs a fresh parse: the mutation phase of the parsed
+    # origin runs on the plain build (value oracle); thorough additionally runs the before-mutation oracle of the parsed origin under ASan
+    c.build('plain', ['c11'])
+    c.run_family('plain', 'c11', 'clone-parsed', args=args, chunk=6 if quick else 16, per_case_timeout=30)
+    if not quick:
+        c.run_family('asan', 'c11', 'clone-parsed-pre', args=args, chunk=32, per_case_timeout=10)
     return c.finish(
         rule='a case is one generated model (index = mixed-radix number of its 8 dimensions: hierarchy shape, encapsulation ids, units flavour, reset flavour, '
              'imports, equivalences, math, ids) in one origin (built through the API / printed and parsed back); inside a case EVERY entity of the model is '
@@ -35,6 +34,6 @@ def main(tier):
             'untouched, and the clone\'s equivalences among its own variables equal to the original\'s',
             'a reset whose variable lives in another component is cloned with a private copy of that variable; the serialisation (variable name) is the same and '
             'this is not judged',
-            'quick enumerates a sub-grid of the dimensions (3x2x3x4x2x3x1x1 = 432 models) and runs the parsed origin without ASan; thorough the full grid '
-            '(4x2x4x5x3x4x2x2 = 7680 models), both origins under ASan/UBSan',
+            'quick enumerates a sub-grid of the dimensions (3x2x2x3x2x3x1x1 = 216 models); thorough the full grid (4x2x4x5x3x4x2x2 = 7680 models); '
+            'the API origin runs under ASan/UBSan, the mutation phase of the parsed origin on the plain build (thorough repeats its before-mutation oracle under ASan)',
         ])
